@@ -67,6 +67,30 @@ def generate(rng):
     if fork:
       programs[pid]["variant_of"] = "m%d" % (i - 1)
     mains.append(pid)
+  # an upstream module that CHANGES while the processes live: a variant with
+  # the same module name (hence the same stub path) whose stub differs by
+  # int <-> str only, and twins of the main programs that use it
+  leafs = [u for u in ups if not any(u in programs[o]["deps"] for o in ups)]
+  twins = []
+  if leafs and rng.random() < 0.5:
+    uk = rng.choice(leafs)
+    users = [m for m in mains if uk in programs[m]["deps"]]
+    if users:
+      # one constant whose type is int in the module and str in its variant,
+      # read by every user
+      programs[uk]["src"] += "KX = 7\n"
+      programs[uk + "v"] = dict(programs[uk], variant_of=uk,
+                                src=programs[uk]["src"][:-len("KX = 7\n")] + "KX = 's'\n")
+      for m in users:
+        programs[m]["src"] += "ux = %s.KX\n" % programs[uk]["module"]
+      for m in users:
+        if rng.random() < 0.7:
+          twin = dict(programs[m])
+          twin["deps"] = [uk + "v" if d == uk else d for d in twin["deps"]]
+          twin["variant_of"] = m
+          programs[m + "v"] = twin
+          mains.append(m + "v")
+          twins.append((m, m + "v"))
   if rng.random() < 0.4:
     cp = proggen.corpus_program(rng, os.path.abspath(os.environ.get("VERIF_REPO", "/repo")))
     if cp is not None:
@@ -98,6 +122,13 @@ def generate(rng):
     opts = rng.choice(opt_variants)
     key = "%s|%s|%s" % (prog, form, json.dumps(opts, sort_keys=True))
     pool.append({"prog": prog, "dep_form": form, "opts": opts, "key": key})
+  for m, mv in twins[:2]:
+    # both sides of a changing dependency, against the text stub
+    opts = rng.choice(opt_variants[:2])
+    for prog in (m, mv):
+      key = "%s|%s|%s" % (prog, "text", json.dumps(opts, sort_keys=True))
+      if not any(q["key"] == key for q in pool):
+        pool.append({"prog": prog, "dep_form": "text", "opts": opts, "key": key})
   if rng.random() < 0.12:
     pre = sorted(rng.sample(["os", "sys", "math", "string"], rng.randrange(0, 3)))
     pool.append({"kind": "builtins", "preload": pre,
@@ -109,10 +140,17 @@ def generate(rng):
       env = {"hashseed": 0, "seed": 0, "clock": False}
       perturbed = False
     else:
-      env = {"hashseed": rng.choice([0, 1, 2, 7, 42, 1234, 99999, rng.randrange(1 << 31)]),
+      hs = rng.choice([1, 2, 7, 42, 1234, 99999, rng.randrange(1, 1 << 31),
+                       rng.randrange(1, 1 << 31)])
+      while any(x["env"]["hashseed"] == hs for x in workers):
+        hs = rng.randrange(1, 1 << 31)     # every process its own hash seed
+      env = {"hashseed": hs,
              "seed": rng.randrange(1 << 30),
              "clock": rng.random() < 0.7,
-             "clock_start": rng.choice([0.0, 1.0e9, 1.7e9, 4.0e9, 2.0 ** 31 - 5])}
+             "clock_start": rng.choice([0.0, 1.0e9, 1.7e9, 4.0e9, 2.0 ** 31 - 5]),
+             # a REAL file system (private tmpfs, builtin open, os.stat) instead
+             # of the in-memory one; mtimes follow the simulated clock
+             "realfs": rng.random() < 0.35}
       perturbed = rng.random() < 0.75
     hist = []
     order = list(pool)
@@ -122,6 +160,10 @@ def generate(rng):
       req = dict(base)
       if req.get("kind") != "builtins":
         req["kind"] = rng.choice(["api", "api", "file", "file"])
+        if programs[req["prog"]].get("poison"):
+          # only the command-line path turns a compile error into a report
+          # (the library call raises it to its caller)
+          req["kind"] = "file"
         if req["kind"] == "file":
           req["out"] = rng.choice(["pyi", "pyi", "pickle"])
         if req["kind"] == "api" and w != 0:
@@ -167,8 +209,18 @@ def run_worker(trace, w, full=False, timeout=600):
   env["PYTHONHASHSEED"] = str(wk["env"]["hashseed"])
   env["PYTHONDONTWRITEBYTECODE"] = "1"
   env.pop("VERIF_PINNED", None)
-  p = subprocess.run([sys.executable, WORKER], input=json.dumps(job),
+  cmd = [sys.executable, WORKER]
+  if wk["env"].get("realfs") and _unshare_ok():
+    cmd = ["unshare", "-m", "--propagation", "private"] + cmd
+  elif wk["env"].get("realfs"):
+    job["env"] = dict(wk["env"], realfs=False)
+  p = subprocess.run(cmd, input=json.dumps(job),
                      capture_output=True, text=True, env=env, timeout=timeout)
+  if p.returncode == 3 and '"realfs_failed"' in p.stdout:
+    # no private tmpfs to be had here: serve the same history from memory
+    job["env"] = dict(wk["env"], realfs=False)
+    p = subprocess.run([sys.executable, WORKER], input=json.dumps(job),
+                       capture_output=True, text=True, env=env, timeout=timeout)
   if p.returncode != 0:
     raise kernel.HarnessError("worker %d failed rc=%d: %s" % (
         w, p.returncode, p.stderr[-3000:]))
@@ -177,6 +229,22 @@ def run_worker(trace, w, full=False, timeout=600):
   except ValueError:
     raise kernel.HarnessError("worker %d produced no JSON: %s | %s" % (
         w, p.stdout[-500:], p.stderr[-2000:]))
+
+
+_UNSHARE = []
+
+
+def _unshare_ok():
+  """Can this sandbox give a worker its own mount namespace with a tmpfs?"""
+  if not _UNSHARE:
+    try:
+      p = subprocess.run(["unshare", "-m", "--propagation", "private", "sh", "-c",
+                          "test -d /srv && mount -t tmpfs tmpfs /srv"],
+                         capture_output=True, timeout=20)
+      _UNSHARE.append(p.returncode == 0)
+    except (OSError, subprocess.TimeoutExpired):
+      _UNSHARE.append(False)
+  return _UNSHARE[0]
 
 
 def evaluate(trace, full=False):
